@@ -38,6 +38,15 @@ def SamePartition [DecidableEq α] [DecidableEq β] (a : List α) (b : List β) 
 instance [DecidableEq α] [DecidableEq β] (a : List α) (b : List β) : Decidable (SamePartition a b) := by
   unfold SamePartition; infer_instance
 
+/-- `labels` uses exactly the labels `0..k-1`, with non-increasing sizes when `sorted` -/
+def ValidK (labels : List Nat) (k : Nat) (sorted : Bool) : Prop :=
+  Contiguous labels k ∧ (sorted = true → SizesNonInc labels k)
+
+/-- The contract assumed of `np.argsort(key)`: some permutation of the positions along which the keys do not
+    decrease (nothing is assumed about ties) -/
+def IsArgsort (key : List Int) (p : List Nat) : Prop :=
+  p.Perm (List.range key.length) ∧ (p.map fun i => key.getD i 0).Pairwise (· ≤ ·)
+
 /-- The clause of C05 about Louvain, Leiden and propagation: one label per node (for a bipartite graph the
     vector lists rows then columns), labels `0..k-1` with none unused, sizes non-increasing when sorted. -/
 def ValidClustering (n : Nat) (labels : List Nat) (sorted : Bool) : Prop :=
